@@ -34,7 +34,7 @@ class Contract:
                  raises=None, cases=None, split_len=None, loops=None, inline=(), use=(),
                  serves=(), modifies=None, ghost=None, build=None, pure=False, exc_ensures=None,
                  note='', old=(), assume_only=False, result_type=None, abstract_calls=None,
-                 result_cases=None, tactics=(), opaque=(), type_cases=()):
+                 result_cases=None, tactics=(), opaque=(), type_cases=(), split_on=()):
         self.qual = qual
         self.params = params or {}          # name -> type
         self.self_type = self_type          # Obj(...) for methods
@@ -62,6 +62,7 @@ class Contract:
         self.result_cases = result_cases
         self.tactics = list(tactics)    # [{'when': {param: [values]}, 'split_len': {...}, 'opaque': [...]}]
         self.type_cases = list(type_cases)  # [(label, {param: type})]: alternative shapes of the inputs (complete split)
+        self.split_on = list(split_on)  # boolean expressions; one case each, proved exhaustive (Or valid under requires)
         self.opaque = list(opaque)      # spec functions kept as uninterpreted functions (not unfolded)
         self.scope = _SCOPE[0]
         REGISTRY[qual] = self
